@@ -356,13 +356,13 @@ def gen_history(r, prog, n_ops, weights=None, sane=0.8, hand_n=0, slots=3, olds=
     hot = mentioned_names(prog) or names
     nch = sum(1 for it in kgen.walk(prog["items"]) if it["k"] == "choice")
     w = {"set": 40, "unset": 8, "cunset": 3, "reset": 8, "reset_menu": 3, "read": 18, "save": 6, "save_min": 0, "load": 6,
-         "load_hand": 3 if hand_n else 0, "restart": 4, "edge": 0, "dance": 2, "load_bad": 0, "stale_merge": 0, "clobber": 0}
+         "load_hand": 3 if hand_n else 0, "restart": 4, "edge": 0, "dance": 2, "load_bad": 0, "stale_merge": 0, "clobber": 0, "stale_chain": 0}
     member_bias = 0.25
     if weights:
         weights = dict(weights)
         member_bias = weights.pop("member_bias", member_bias)
         w.update(weights)
-    edges = kgen.dep_edges(prog) if (w.get("edge") or w.get("dance") or w.get("stale_merge")) else []
+    edges = kgen.dep_edges(prog) if (w.get("edge") or w.get("dance") or w.get("stale_merge") or w.get("stale_chain")) else []
     if not edges:
         w["edge"] = 0
     # members whose visibility hangs on an option outside their choice, with their siblings (for "dance")
@@ -476,6 +476,25 @@ def gen_history(r, prog, n_ops, weights=None, sane=0.8, hand_n=0, slots=3, olds=
             ops.append(["clobber", ("m%d" % r.randrange(slots)) if r.random() < 0.7 else r.randrange(slots), int(r.random() < 0.4)])
         elif kind == "load_bad":
             ops.append(["load_bad", r.choice(sorted(saved)) if saved else 0])
+        elif kind == "stale_chain":
+            # a -> b -> c: make b's stored default stale (save, change a, merge the save back: b gets pinned under policy
+            # sdkconfig), look at c, then replace the configuration (by a load that works, or one that fails part-way)
+            chains = [(a, b, c2) for a, b, _ in edges for b2, c2, _ in edges if b2 == b and c2 not in (a, b)]
+            if chains:
+                a, b, c = r.choice(chains[:400])
+                s = r.randrange(slots)
+                saved.add(s)
+                ops.append(["save", s, 0])
+                ops.append(["set", a, r.choice(kgen.SANE[tab[a]["type"]])])
+                ops.append(["load", s, 0])
+                ops.append(["read", [b, c], 15])
+                k4 = r.random()
+                if k4 < 0.4 and "load_bad" in w:
+                    ops.append(["load_bad", s])
+                elif k4 < 0.7:
+                    ops.append(["load", r.choice(sorted(saved)), 1])
+                elif hand_n:
+                    ops.append(["load_hand", r.randrange(hand_n), 1])
         elif kind == "stale_merge":
             # save; change something another option's default depends on; merge the saved file back: its default-marked
             # entry for the dependent is stale now (policy sdkconfig pins it for the session)
